@@ -23,6 +23,11 @@ RULES = {
     'C19.U': '__slots__ is a literal list of distinct identifiers',
     'C19.O': 'wire order: __slots__ lists the arguments in the order the '
              'specification puts them on the wire',
+    'C19.K': 'instances produced by copy / pickle are instances like any '
+             'other: the frame classes keep the default reduction protocol '
+             '(which saves and restores the slots); a __getstate__ without '
+             'a matching __setstate__ hands the default reconstruction a '
+             'state it puts into __dict__, leaving every slot unset',
     'C19.W': 'the name list is stable across a round trip: no abstract run '
              'of marshal / unmarshal (failing paths included) stores into, '
              'deletes from or calls a mutating method on a class-level '
@@ -42,10 +47,50 @@ def call(it, ctx, fi, args, st):
     return j.value, j.state, raises
 
 
+PROTOCOL_METHODS = ('__getstate__', '__setstate__', '__reduce__',
+                    '__reduce_ex__', '__copy__', '__deepcopy__',
+                    '__getnewargs__', '__getnewargs_ex__')
+
+
+def copy_protocol(chk, ctx):
+    prog = ctx.prog
+    roots = [prog.cls('base.Frame'),
+             prog.cls('base.BasicProperties')]
+    defined = {}
+    for ci in prog.classes.values():
+        if not any(prog.is_subclass(ci, r) for r in roots) and \
+                not any(prog.is_subclass(r, ci) for r in roots):
+            continue
+        for nm in PROTOCOL_METHODS:
+            if nm in ci.methods or nm in ci.bindings:
+                defined.setdefault(nm, []).append(ci.short)
+    if not defined:
+        chk.ob('C19.K', 'copy / pickle protocol', True,
+               'no frame class defines %s: the default protocol copies the '
+               'slots' % ', '.join(PROTOCOL_METHODS[:4]))
+        return
+    if '__getstate__' in defined and '__setstate__' not in defined and \
+            not ({'__reduce__', '__reduce_ex__', '__copy__',
+                  '__deepcopy__'} & set(defined)):
+        chk.ob('C19.K', 'copy / pickle protocol', False,
+               '%s defines __getstate__ and nothing restores that state: '
+               'copy.copy / deepcopy / pickle of a frame put it into '
+               '__dict__ (or fail) and every argument slot of the duplicate '
+               'is unset - iterating it raises AttributeError' %
+               ', '.join(defined['__getstate__']),
+               site='pamqp/base.py')
+        return
+    chk.undecide('C19.K', 'copy / pickle protocol',
+                 'custom reduction protocol: %s' % ', '.join(
+                     '%s in %s' % (k, '/'.join(v))
+                     for k, v in sorted(defined.items())))
+
+
 def run(chk, ctx):
     for r, t in RULES.items():
         chk.rule(r, t)
     chk.exhaustive = True
+    copy_protocol(chk, ctx)
     chk.explanation = (
         'For each of the 65 classes the accessors (__len__, __contains__, '
         '__iter__, __getitem__, attributes, amqp_type), resolved through '
@@ -324,6 +369,14 @@ def stable_tables(chk, ctx, classes):
             origin = d[2] if isinstance(d, tuple) and len(d) > 2 else None
             if ef.kind == 'class-attr-write' or in_class_scope(origin):
                 bad.append((where, cshort, ef))
+    # ... and of the mapping protocol itself (__iter__, __repr__, __eq__,
+    # accessors ...): reading a frame leaves its class tables alone
+    from .c16 import data_model_effects
+    dm, dm_runs = data_model_effects(ctx)
+    runs += dm_runs
+    for where_, ef in dm:
+        cshort_, meth_ = where_.rsplit('.', 1)
+        bad.append((meth_, cshort_, ef))
     seen = set()
     for where, cshort, ef in bad:
         key = (where, ef.kind, ef.site)
